@@ -20,7 +20,7 @@ run_digit(void) {
 		vs_get(ds, i, &x); dx = r_to_digit(&x);
 		d_a = x;
 		/* one-argument helpers */
-		if (vh_begin("bn_digit_bits_ctz_clz")) {
+		if (begin_case("bn_digit_bits_ctz_clz")) {
 			d_op = "bn_digit_bits/ctz/clz/ffs/is_pow2";
 			CALL_COUNT();
 			for (pop = 0, b = 0; b < W; b ++) pop += r_bit(&x, b);
@@ -32,7 +32,7 @@ run_digit(void) {
 			if (!vh_case_failed) vh_nontrivial();
 		}
 		/* two-argument helpers */
-		if (vh_begin("bn_digit_mult")) {
+		if (begin_case("bn_digit_mult")) {
 			d_op = "bn_digit_mult";
 			for (j = 0; j < ds->n; j ++) {
 				vs_get(ds, j, &y); dy = r_to_digit(&y);
@@ -47,7 +47,7 @@ run_digit(void) {
 				else vh_nontrivial();
 			}
 		}
-		if (vh_begin("bn_digit_gcd")) {
+		if (begin_case("bn_digit_gcd")) {
 			d_op = "bn_digit_gcd / bn_digit_gcd_bin";
 			for (j = 0; j < ds->n; j ++) {
 				g1 = 0; g2 = 0;
@@ -65,7 +65,7 @@ run_digit(void) {
 			}
 		}
 		/* three-argument: (hi:lo) / divisor with x = divisor */
-		if (vh_begin("bn_digit_div")) {
+		if (begin_case("bn_digit_div")) {
 			d_op = "bn_digit_div (first argument is the divisor)";
 			/* dividend high: every value in the thorough tier, the extended digit alphabet in quick */
 			const vset_t *dh = (vh_thorough || ds != &VS_EX1) ? ds : &VS_DX;
